@@ -174,6 +174,15 @@ func condMet(sc *Scenario, t *Truth, dep, c string, seq int, depth int, waitStar
 				// Skipped / failed to start: it is no longer waiting on anything
 				continue
 			}
+			launched := false
+			for _, in := range insts {
+				if in.ExecSeq < seq {
+					launched = true
+				}
+			}
+			if launched {
+				continue // it has been launched: it was released from its dependencies then
+			}
 			// released from all of its own dependencies
 			for _, dd := range sortedKeys(d.DependsOn) {
 				if ok, why := condMet(sc, t, dd, d.DependsOn[dd], seq, depth+1, waitStart); !ok {
